@@ -435,6 +435,18 @@ pub fn run(op: &str, e: &Value, ctx: &mut Ctx) -> Result<Value, String> {
                 }
             } else {
                 o["ctx_refused"] = json!(vk.with_context(&c).is_err());
+                // a context longer than 255 bytes is malformed input: each prehashed verifier must answer Err (its own
+                // catch_unwind, so that a panic here is reported in this field and the rest of the event survives)
+                let long = |f: &dyn Fn() -> bool| -> String {
+                    match std::panic::catch_unwind(std::panic::AssertUnwindSafe(f)) {
+                        Ok(true) => "ok".into(),
+                        Ok(false) => "err".into(),
+                        Err(_) => "panic".into(),
+                    }
+                };
+                o["ph_long"] = json!(long(&|| vk.verify_prehashed(ph(), Some(&c), &sig).is_ok()));
+                o["ph_long_strict"] = json!(long(&|| vk.verify_prehashed_strict(ph(), Some(&c), &sig).is_ok()));
+                o["ph_long_raw"] = json!(long(&|| ed25519_dalek::hazmat::raw_verify_prehashed::<Sha512, Sha512>(&vk, ph(), Some(&c), &sig).is_ok()));
             }
             Ok(o)
         }
